@@ -356,6 +356,14 @@ func DependsOn(v ssa.Value, pred func(ssa.Value) bool) bool {
 				return true
 			}
 		}
+		// an Alloc used as a value (slice of a varargs array, address passed on) depends on what is stored in it
+		if a, ok := x.(*ssa.Alloc); ok {
+			for _, st := range StoresInto(a) {
+				if walk(st.Val) {
+					return true
+				}
+			}
+		}
 		// loads from (a part of) an Alloc depend on the values stored to (any part of) it
 		if u, ok := x.(*ssa.UnOp); ok && u.Op == token.MUL {
 			if root, ok := AddrRoot(u.X).(*ssa.Alloc); ok {
@@ -590,16 +598,40 @@ func ReachFromBlock(fn *ssa.Function, b *ssa.BasicBlock, cut *Cut) *Reach {
 	return r
 }
 
-// EnclosingLoopHeader returns the nearest block dominating b that is a loop
-// header (its comment ends in ".loop") from which b is reachable and which is
-// reachable from b.
+// LoopBody returns the natural loop of header d: all blocks that can reach a
+// back edge source without passing through d (d included). Empty if d is not a
+// loop header.
+func LoopBody(d *ssa.BasicBlock) map[*ssa.BasicBlock]bool {
+	body := map[*ssa.BasicBlock]bool{}
+	var stack []*ssa.BasicBlock
+	for _, t := range d.Preds {
+		if d.Dominates(t) {
+			if !body[t] && t != d {
+				body[t] = true
+				stack = append(stack, t)
+			}
+			body[d] = true
+		}
+	}
+	for len(stack) > 0 {
+		x := stack[len(stack)-1]
+		stack = stack[:len(stack)-1]
+		for _, p := range x.Preds {
+			if p != d && !body[p] {
+				body[p] = true
+				stack = append(stack, p)
+			}
+		}
+	}
+	return body
+}
+
+// EnclosingLoopHeader returns the header of the innermost natural loop that
+// contains b (b itself when b is a header), or nil.
 func EnclosingLoopHeader(b *ssa.BasicBlock) *ssa.BasicBlock {
 	for d := b; d != nil; d = d.Idom() {
-		if strings.HasSuffix(d.Comment, ".loop") {
-			// b must be inside the loop: header reachable from b
-			if blockReaches(b, d) {
-				return d
-			}
+		if lb := LoopBody(d); lb[b] {
+			return d
 		}
 	}
 	return nil
